@@ -88,10 +88,31 @@ def gen_cases(tier, seed):
         rng = gen.rng_for("C06p", seed, i)
         nodes, edges = gen.cyc_any(rng, 12)
         ign = [] if rng.random() < 0.5 else rng.sample(edges, rng.randint(1, max(1, len(edges) // 3)))
-        cases.append({"kind": "prune", "spec": gen.spec(nodes, edges, eattr={e: {"flow": rng.randint(1, 5)} for e in edges}),
+        r2 = gen.rng_for("C06p2", seed, i); se_ = {}
+        if r2.random() < 0.35:
+            # additional start / end nodes (no cover is obliged to start or end there), or a source all of whose edges are ignored
+            if r2.random() < 0.7:
+                se_["additional_starts"] = [r2.choice(nodes)]
+            if r2.random() < 0.7:
+                se_["additional_ends"] = [r2.choice(nodes)]
+        elif r2.random() < 0.2:
+            src_ = [v for v in nodes if not any(e[1] == v for e in edges)]
+            if src_:
+                v_ = r2.choice(src_); ign = list(dict.fromkeys(list(ign) + [e for e in edges if e[0] == v_]))
+                if len(ign) == len(edges):
+                    ign = []
+        cases.append({"kind": "prune", "se": se_, "spec": gen.spec(nodes, edges, eattr={e: {"flow": rng.randint(1, 5)} for e in edges}),
                       "cls": rng.choice(["kPathCoverCycles", "kPathCoverCycles", "kMinPathErrorCycles", "kLeastAbsErrorsCycles"]),
                       "k": rng.randint(1, 4), "ignore": gen.jl(ign), "oo": rng.choice([{}, {"optimize_with_safe_sequences_allow_geq_constraints": False}, {"optimize_with_max_safe_antichain_as_subset_constraints": True},
                                         {"optimize_with_safe_sequences_fix_via_bounds": True}, {"optimize_with_safe_sequences_fix_via_bounds": True, "optimize_with_safe_sequences_fix_zero_edges": False}])})
+    # corpus: the single safe walk goes through the edge x->y twice, and 2 is also the most that edge can be traversed (its flow / the largest
+    # reachable flow is 2): 'at least twice' and 'exactly twice' coincide there, 'exactly once' never holds
+    dbl = [("s", "x", 1), ("x", "y", 2), ("y", "t", 1), ("y", "u", 1), ("u", "x", 1)]
+    for order in (dbl, list(reversed(dbl)), dbl[2:] + dbl[:2]):
+        for cls_ in ("kFlowDecompCycles", "kMinPathErrorCycles", "kLeastAbsErrorsCycles", "kPathCoverCycles"):
+            for oo_ in ({}, {"optimize_with_safe_sequences_fix_via_bounds": True}, {"optimize_with_safe_sequences_fix_via_bounds": True, "optimize_with_safe_sequences_fix_zero_edges": False}):
+                cases.append({"kind": "prune", "cls": cls_, "k": 1, "ignore": [], "oo": oo_,
+                              "spec": gen.spec(["s", "x", "y", "u", "t"], [(u, v) for u, v, _ in order], eattr={(u, v): {"flow": f} for u, v, f in order})})
     for i in range(n // 2):
         rng = gen.rng_for("C06m", seed, i)
         nodes, edges = gen.dag_any(rng, 11)
@@ -306,10 +327,11 @@ def run_prune(case, viol, obs):
     kw = dict(k=case["k"], optimization_options=dict(case["oo"]) or None, solver_options=dict(SO), elements_to_ignore=list(ign))
     if case["cls"] != "kPathCoverCycles":
         kw.update(flow_attr="flow", weight_type=int)
+    kw.update({k_: list(v_) for k_, v_ in (case.get("se") or {}).items()})
     if case["cls"] == "kLeastAbsErrorsCycles":
         kw["trusted_edges_for_safety"] = [e for e in G.edges if e not in ign]
     r = M.safe_call(cls, G, **kw)
-    desc = f"{case['cls']} k={case['k']} ignore={ign} oo={case['oo']} edges {list(G.edges)}"
+    desc = f"{case['cls']} k={case['k']} ignore={ign} oo={case['oo']} {case.get('se') or ''} edges {list(G.edges)}"
     if r[0] != "ok":
         # construction may legitimately fail (e.g. no source); not this property's business
         obs["c06.prune_ctor_failed"] += 1
@@ -317,6 +339,12 @@ def run_prune(case, viol, obs):
     m = r[1]
     st = m.G
     X = [e for e in (m.trusted_edges_for_safety or [])]
+    if case["cls"] == "kPathCoverCycles":
+        # a cover model: the edges every solution has to cover are the caller's non-ignored edges - that is the X the sequences must be safe for
+        # (never the synthetic edges from the global source / into the global sink, which no cover is obliged to use)
+        X = [e for e in G.edges if e not in ign]; obs["c06.prune_cover_models_judged_against_the_callers_edges"] += 1
+    elif case["cls"] == "kLeastAbsErrorsCycles":
+        X = list(kw["trusted_edges_for_safety"])
     wtf = [[tuple(e) for e in w] for w in (getattr(m, "walks_to_fix", None) or [])]
     nontriv = False
     obs["c06.prune_models"] += 1
@@ -358,6 +386,11 @@ def run_prune(case, viol, obs):
         obs["c06.fixed_one_judged"] += 1
         if i >= len(wtf) or (u, v) not in wtf[i]:
             viol.append({"sig": "C06/fixed-edge-not-on-slot-sequence", "msg": f"{(u, v, i)}; {desc}"})
+        elif wtf[i].count((u, v)) != 1 or st.is_scc_edge(u, v):
+            # 'traversed exactly once' (the concrete models then let the slot's weight count once on that edge) forbids every walk that
+            # contains the slot's sequence and traverses the edge a different number of times: the sequence itself does if it lists the
+            # edge twice, and inside a strongly connected component a walk containing the sequence can always go round once more
+            viol.append({"sig": "C06/edge-declared-traversed-exactly-once-although-the-slot-sequence-allows-more", "msg": f"{(u, v, i)}: the sequence {wtf[i]} lists it {wtf[i].count((u, v))} time(s), SCC edge: {st.is_scc_edge(u, v)}; {desc}"})
     return hashlib.sha1(desc.encode()).hexdigest()[:14], nontriv
 
 
